@@ -31,6 +31,13 @@ def inputs(ctx, big=False):
     n_rand = 60000 if (big or not ctx.quick()) else 6000
     for _ in range(n_rand):
         xs.append(gen.rand_unicode(ctx.rng, 20) if ctx.rng.random() < 0.5 else gen.rand_mixed(ctx.rng))
+    # a percent sign next to digits of other scripts (\\d matches them, [0-9] does not), percent runs, and white space of every kind
+    digits = ["٠", "١", "９", "１", "०", "a", "F", "0", "9"]
+    for _ in range(6000 if (big or not ctx.quick()) else 600):
+        xs.append("".join(ctx.rng.choice(["%", "%", "/", "x"] + digits) for _ in range(ctx.rng.randint(1, 7))))
+    spaces = [" ", "\t", "\n", "\x0b", "\x0c", "\x1c", "\x1f", "\x85", "\xa0", "\u1680", "\u2000", "\u2003", "\u200a", "\u2028", "\u2029", "\u202f", "\u205f", "\u3000"]
+    for _ in range(6000 if (big or not ctx.quick()) else 600):
+        xs.append("".join(ctx.rng.choice(["foo", "Bar", "ß", "x"]) + ctx.rng.choice(spaces) * ctx.rng.randint(0, 2) for _ in range(ctx.rng.randint(1, 4))))
     return xs
 
 
@@ -57,7 +64,11 @@ def oracle(ctx, util, xs):
         k = util.unikey(s)
         if util.unikey(k) != k:
             ctx.fail("unikey-idem", "unikey not idempotent on %r" % s, {"fn": "unikey", "s": s, "out": k})
-        for v in (s.lower(), s.upper(), s.swapcase(), "  " + s.replace(" ", " \t\n ") + "\n"):
+        ws_variants = ["  " + s.replace(" ", " \t\n ") + "\n"]
+        if " " in s.strip():
+            # a run of ANY white space (str.isspace) between words is one separator
+            ws_variants += [s.replace(" ", w) for w in ("\xa0", "\u3000", "\u2028", " \x85 ", "\u2003\u2003", "\x1c")]
+        for v in [s.lower(), s.upper(), s.swapcase()] + ws_variants:
             if util.unikey(v) != k:
                 ctx.fail("unikey-variant", "unikey differs between %r and its case/whitespace variant %r" % (s, v), {"fn": "unikey", "s": s, "variant": v})
     # percent-encoded octets are left alone
